@@ -266,37 +266,36 @@ def gen_parser_tables():
                 cls_keys = seq
     if cls_keys is None:
         raise ShapeNotFound("cls_args key list in _parse_object")
-    # how _parse_composition iterates the list-valued composition keywords
+    # how _parse_composition iterates the list-valued composition keywords: take the for-loop whose
+    # body stores into a subscript keyed by the loop variable, and EVALUATE its iteration expression
+    # in the parser module's own namespace (robust to any spelling of the same sequence).  The kind
+    # is decided by the type of the value: a set/frozenset has no defined order.
     pc = find_func(tree, "_parse_composition")
-    comp_iter = None
+    it_expr = None
     for node in ast.walk(pc):
-        if isinstance(node, ast.For):
-            it = node.iter
-            seq = str_seq(it)
-            if seq is not None and not isinstance(it, ast.Set):
-                comp_iter = ("FixedOrder", seq)
-            elif isinstance(it, ast.Name):
-                comp_iter = ("NameIter", [it.id])
-            else:
-                src = ast.unparse(it)
-                comp_iter = ("SetIter" if "set(" in src or isinstance(it, (ast.Set, ast.BinOp)) else "Other", [src])
-    if comp_iter is None:
+        if isinstance(node, ast.For) and isinstance(node.target, ast.Name):
+            var = node.target.id
+            stores = [n for n in ast.walk(node) if isinstance(n, ast.Subscript) and isinstance(n.ctx, ast.Store)
+                      and isinstance(n.slice, ast.Name) and n.slice.id == var]
+            if stores:
+                it_expr = node.iter
+    if it_expr is None:
         raise ShapeNotFound("composition loop in _parse_composition")
-    kind, payload = comp_iter
-    if kind == "NameIter":
-        # resolve a module-level / local tuple constant of strings
-        from statham.schema import parser as P, constants as C
-        val = getattr(P, payload[0], getattr(C, payload[0], None))
-        if isinstance(val, (tuple, list)) and all(isinstance(x, str) for x in val):
-            kind, payload = "FixedOrder", [x for x in val]
-        else:
-            kind = "Other"
-    # evaluated order in THIS interpreter (what the implementation side of the run will do)
-    from statham.schema.constants import COMPOSITION_KEYWORDS
-    if kind == "FixedOrder":
-        order_now = [k for k in payload if k != "not"]
+    from statham.schema import parser as P
+    try:
+        val = eval(compile(ast.Expression(it_expr), "<comp-iter>", "eval"), dict(vars(P)))
+    except Exception as exc:
+        raise ShapeNotFound("composition loop iterable cannot be evaluated: %s" % exc)
+    if isinstance(val, (set, frozenset)):
+        kind = "SetIter"
+        order_now = list(val)
     else:
-        order_now = list(set(COMPOSITION_KEYWORDS) - {"not"})
+        order_now = list(val)
+        kind = "FixedOrder" if all(isinstance(x, str) for x in order_now) else "Other"
+    # a syntactically set-typed iterable counts as SetIter whatever its evaluated type
+    import translate_setiter as TS
+    if TS.is_set_expr(it_expr, {}, set()):
+        kind = "SetIter"
     return (
         "Inductive comp_iter_kind := FixedOrder | SetIter | OtherIter.\n"
         "Definition literal_keys : list str := %s.\n"
